@@ -42,6 +42,11 @@ type batch struct {
 	Types       []int8
 }
 
+// gk is the key of an offset in the per-offset tables: the offset itself on
+// partition 0 (all single-partition scenarios), partition*1000+offset otherwise
+// (so "1002" in a message of the two-partition scenarios is offset 2 of p1).
+func gk(part int32, off int64) int64 { return int64(part)*1000 + off }
+
 func (b batch) String() string { return fmt.Sprintf("[%d,%d]%v", b.First, b.Last, b.Types) }
 
 // ackReq is one request delivered to kfake that carried acknowledgements.
@@ -49,6 +54,7 @@ type ackReq struct {
 	member    string
 	broker    int
 	key       int16
+	part      int32
 	epoch     int32
 	at        int // logical time of delivery to kfake
 	batches   []batch
@@ -61,9 +67,9 @@ type ackReq struct {
 }
 
 type pending struct {
-	key int16
-	at  int
-	ack *ackReq
+	key  int16
+	at   int
+	acks []*ackReq // one per partition that carried acknowledgement batches
 }
 
 type polled struct {
@@ -173,9 +179,9 @@ func (st *state) allowedTypes(m *member, off int64) map[int8]bool {
 	return al
 }
 
-func (st *state) onAckReq(m *member, c *netctl.Conn, key int16, epoch int32, isRenew bool, bs []batch) *ackReq {
+func (st *state) onAckReq(m *member, c *netctl.Conn, key int16, part int32, epoch int32, isRenew bool, bs []batch) *ackReq {
 	x := st.x
-	r := &ackReq{member: m.name, broker: c.Broker, key: key, epoch: epoch, at: st.tick(), batches: bs}
+	r := &ackReq{member: m.name, broker: c.Broker, key: key, part: part, epoch: epoch, at: st.tick(), batches: bs}
 	// (d) ascending and disjoint within the request
 	asc, valid := true, true
 	cover := map[int64]int{}
@@ -216,7 +222,7 @@ func (st *state) onAckReq(m *member, c *netctl.Conn, key int16, epoch int32, isR
 	// identical re-send after a lost response (transport retry of ShareAcknowledge)
 	if key == 79 {
 		for _, old := range m.reqs {
-			if old.key == 79 && !old.responded && old.broker == r.broker && sameBatches(old.batches, bs) {
+			if old.key == 79 && old.part == part && !old.responded && old.broker == r.broker && sameBatches(old.batches, bs) {
 				r.retrans = true
 				st.retrans++
 			}
@@ -236,6 +242,7 @@ func (st *state) onAckReq(m *member, c *netctl.Conn, key int16, epoch int32, isR
 			if t == 4 {
 				continue
 			}
+			o := gk(part, o)
 			m.finals[o]++
 			if m.finals[o] > m.deliv[o] {
 				x.Violate("final-ack-twice", "%s acknowledged offset %d with a final type %d times but it was delivered to it %d times (request key %d epoch %d %v)", m.name, o, m.finals[o], m.deliv[o], key, epoch, bs)
@@ -257,7 +264,24 @@ func keys(m map[int8]bool) []int {
 	return k
 }
 
-func (st *state) onAckResp(m *member, r *ackReq, top int16, partErr int16, found bool) {
+// onAckResps handles the response to one wire request that carried
+// acknowledgements for one or more partitions (one ackReq each). The client
+// invokes the callback once per request, so userResps counts the request once.
+func (st *state) onAckResps(m *member, acks []*ackReq, top int16, perr map[int32]int16) {
+	user := false
+	for _, r := range acks {
+		code, found := perr[r.part]
+		if st.onAckResp(m, r, top, code, found) {
+			user = true
+		}
+	}
+	if user {
+		m.userResps++
+	}
+}
+
+// onAckResp reports whether the partition's batches carried a user acknowledgement.
+func (st *state) onAckResp(m *member, r *ackReq, top int16, partErr int16, found bool) bool {
 	r.responded = true
 	r.respAt = st.tick()
 	r.ok = top == 0 && found && partErr == 0
@@ -266,21 +290,14 @@ func (st *state) onAckResp(m *member, r *ackReq, top int16, partErr int16, found
 		// answer without an error code means the verdict got lost on the way.
 		st.x.Violate(keyAckErrorLost, "%s: request key %d with acknowledgement batches %v (overlapping or not ascending: the broker rejects them and applies nothing) was answered WITHOUT an acknowledgement error; the client reports success to the ShareAckCallback and the records come back later", m.name, r.key, r.batches)
 		r.ok = false // do not treat the records as confirmed: the consequence is the same finding
-		if r.userAck {
-			m.userResps++
-		}
 		m.okAll++
-		return
+		return r.userAck
 	}
 	if r.ok {
 		m.okAll++ // gap-only requests get a (nil) callback result as well
 	}
-	if !r.userAck {
-		return
-	}
-	m.userResps++
-	if !r.ok {
-		return
+	if !r.userAck || !r.ok {
+		return r.userAck
 	}
 	m.okResps++
 	for _, b := range r.batches {
@@ -289,11 +306,12 @@ func (st *state) onAckResp(m *member, r *ackReq, top int16, partErr int16, found
 			if len(b.Types) > 1 {
 				t = b.Types[o-b.First]
 			}
-			if (t == 1 || t == 3) && st.confirmed[o] == 0 {
-				st.confirmed[o] = r.respAt
+			if k := gk(r.part, o); (t == 1 || t == 3) && st.confirmed[k] == 0 {
+				st.confirmed[k] = r.respAt
 			}
 		}
 	}
+	return true
 }
 
 func (st *state) hook(c *netctl.Conn, dir string, key, ver int16, frame []byte) {
@@ -315,7 +333,11 @@ func (st *state) hook(c *netctl.Conn, dir string, key, ver int16, frame []byte) 
 		}
 		p := &pending{key: key, at: st.tick()}
 		m.pend[c.Name][corr] = p
-		var bs []batch
+		type partBatches struct {
+			part int32
+			bs   []batch
+		}
+		var byPart []partBatches
 		var epoch int32
 		var isRenew bool
 		switch r := kreq.(type) {
@@ -323,8 +345,12 @@ func (st *state) hook(c *netctl.Conn, dir string, key, ver int16, frame []byte) 
 			epoch, isRenew = r.ShareSessionEpoch, r.IsRenewAck
 			for _, t := range r.Topics {
 				for _, pt := range t.Partitions {
+					var bs []batch
 					for _, b := range pt.AcknowledgementBatches {
 						bs = append(bs, batch{b.FirstOffset, b.LastOffset, append([]int8(nil), b.AcknowledgeTypes...)})
+					}
+					if len(bs) > 0 {
+						byPart = append(byPart, partBatches{pt.Partition, bs})
 					}
 				}
 			}
@@ -332,14 +358,18 @@ func (st *state) hook(c *netctl.Conn, dir string, key, ver int16, frame []byte) 
 			epoch, isRenew = r.ShareSessionEpoch, r.IsRenewAck
 			for _, t := range r.Topics {
 				for _, pt := range t.Partitions {
+					var bs []batch
 					for _, b := range pt.AcknowledgementBatches {
 						bs = append(bs, batch{b.FirstOffset, b.LastOffset, append([]int8(nil), b.AcknowledgeTypes...)})
+					}
+					if len(bs) > 0 {
+						byPart = append(byPart, partBatches{pt.Partition, bs})
 					}
 				}
 			}
 		}
-		if len(bs) > 0 {
-			p.ack = st.onAckReq(m, c, key, epoch, isRenew, bs)
+		for _, pb := range byPart {
+			p.acks = append(p.acks, st.onAckReq(m, c, key, pb.part, epoch, isRenew, pb.bs))
 		}
 		return
 	}
@@ -363,16 +393,15 @@ func (st *state) hook(c *netctl.Conn, dir string, key, ver int16, frame []byte) 
 				}
 			}
 		}
-		var perr int16
-		found := false
+		perr := map[int32]int16{} // the client keeps the first entry of a partition and ignores duplicates
 		for _, t := range r.Topics {
 			for _, pt := range t.Partitions {
-				if !found { // the client keeps the first entry of a partition and ignores duplicates
-					perr = pt.AcknowledgeErrorCode
+				if _, dup := perr[pt.Partition]; !dup {
+					perr[pt.Partition] = pt.AcknowledgeErrorCode
 				}
-				found = true
 				for _, ar := range pt.AcquiredRecords {
 					for o := ar.FirstOffset; o <= ar.LastOffset && o < ar.FirstOffset+64; o++ {
+						o := gk(pt.Partition, o)
 						m.deliv[o]++
 						if at := st.confirmed[o]; at != 0 && p.at > at {
 							x.Violate("confirmed-record-redelivered", "offset %d was acquired again (delivery count %d, member %s) by a ShareFetch that reached the broker after its accept/reject had been answered without error", o, ar.DeliveryCount, m.name)
@@ -381,23 +410,17 @@ func (st *state) hook(c *netctl.Conn, dir string, key, ver int16, frame []byte) 
 				}
 			}
 		}
-		if p.ack != nil {
-			st.onAckResp(m, p.ack, r.ErrorCode, perr, found)
-		}
+		st.onAckResps(m, p.acks, r.ErrorCode, perr)
 	case *kmsg.ShareAcknowledgeResponse:
-		var perr int16
-		found := false
+		perr := map[int32]int16{}
 		for _, t := range r.Topics {
 			for _, pt := range t.Partitions {
-				if !found {
-					perr = pt.ErrorCode
+				if _, dup := perr[pt.Partition]; !dup {
+					perr[pt.Partition] = pt.ErrorCode
 				}
-				found = true
 			}
 		}
-		if p.ack != nil {
-			st.onAckResp(m, p.ack, r.ErrorCode, perr, found)
-		}
+		st.onAckResps(m, p.acks, r.ErrorCode, perr)
 	}
 }
 
@@ -452,15 +475,15 @@ func (a *app) poll(ctx context.Context, max int) []*polled {
 	a.st.mu.Lock()
 	defer a.st.mu.Unlock()
 	fs.EachRecord(func(r *kgo.Record) {
-		p := &polled{rec: r, off: r.Offset, dcount: r.DeliveryCount(), pollIdx: idx}
+		p := &polled{rec: r, off: gk(r.Partition, r.Offset), dcount: r.DeliveryCount(), pollIdx: idx}
 		if p.dcount < 1 {
 			a.x.Violate("delivery-count", "%s polled offset %d with DeliveryCount %d", a.m.name, r.Offset, p.dcount)
 		}
-		if at := a.st.confirmed[r.Offset]; at != 0 {
+		if at := a.st.confirmed[gk(r.Partition, r.Offset)]; at != 0 {
 			// The record may have been fetched before the confirmation; only a
 			// delivery count above every earlier one proves a new acquisition.
 			for _, q := range a.m.records {
-				if q.off == r.Offset && (q.explicit == kgo.AckAccept || q.explicit == kgo.AckReject) && p.dcount > q.dcount {
+				if q.off == gk(r.Partition, r.Offset) && (q.explicit == kgo.AckAccept || q.explicit == kgo.AckReject) && p.dcount > q.dcount {
 					a.x.Violate("confirmed-record-redelivered", "%s polled offset %d again (delivery count %d) after its accept/reject was answered without error", a.m.name, r.Offset, p.dcount)
 				}
 			}
@@ -553,7 +576,7 @@ func (a *app) flush() {
 				continue
 			}
 			for _, b := range r.batches {
-				if b.First <= p.off && p.off <= b.Last {
+				if k := gk(r.part, 0); k+b.First <= p.off && p.off <= k+b.Last && p.off/1000 == int64(r.part) {
 					done = true
 				}
 			}
@@ -836,7 +859,7 @@ func final(x *netctl.Exec) {
 		fs := ver.PollRecords(ctx, -1)
 		cancel()
 		fs.EachRecord(func(r *kgo.Record) {
-			got[r.Offset] = r.DeliveryCount()
+			got[gk(r.Partition, r.Offset)] = r.DeliveryCount()
 			r.Ack(kgo.AckAccept)
 		})
 	}
@@ -875,6 +898,9 @@ func final(x *netctl.Exec) {
 		var wire []string
 		for _, r := range m.reqs {
 			s := fmt.Sprintf("%d:", r.key)
+			if r.part != 0 {
+				s += fmt.Sprintf("p%d", r.part)
+			}
 			for _, b := range r.batches {
 				s += b.String()
 			}
@@ -919,8 +945,8 @@ var variants = []variant{
 // scenarios. Thorough: single member without leader move: every pair of
 // deviations and every triple of faults; with a leader move or two members:
 // every pair whose second deviation is a fault (after a fault).
-func Plans() []nrun.Plan {
-	var ps []nrun.Plan
+func Plans() (ps []nrun.Plan) {
+	defer func() { ps = append(ps, plans2p()...) }()
 	for _, v := range variants {
 		p := nrun.Plan{Scenario: scenario(v), QuickBudget: 1, ThoroughBudget: 2, Weight: 1}
 		switch {
